@@ -284,12 +284,34 @@ PrefixBitsOk(b, r, opts) ==
          (x.k \in {"mp", "mpun"} /\ x.ek = "bits") =>
             \A j \in 1..Len(x.w.els) : B(b, x.w.els[j].o + x.pre) <= MaxBits(x.afi, x.safi)
 
+(* MP_REACH_NLRI next-hop field (RFC 4760 3 "Length of Next Hop Network Address"): the lengths the
+   address-family documents allow.
+     unicast / multicast / labelled (SAFI 1, 2, 4): one IPv4 address (4), one IPv6 address (16) or IPv6
+       global + link-local (32) - RFC 4760, RFC 2545 3, RFC 8277 / RFC 4798, and RFC 8950 3 for an IPv6
+       next hop in front of IPv4 NLRI;
+     MPLS VPN (SAFI 128): every address is a VPN address = 8-octet zero RD + address: 12 (RFC 4364 4.3.2),
+       24 or 48 = (RD + global) + (RD + link-local) (RFC 4659 3.2.1.1, RFC 8950 3 for VPN-IPv4);
+     SAFI 129 (multicast in VPNs): both forms are met in the field, either accepted;
+     FlowSpec (133, 134): no next hop is needed (RFC 8955 4), 0 or an address;
+     any other family: no claim. *)
+NhLens(afi, safi) ==
+  CASE afi \in {1, 2} /\ safi \in {1, 2, 4} -> {4, 16, 32}
+    [] afi \in {1, 2} /\ safi = 128        -> {12, 24, 48}
+    [] afi \in {1, 2} /\ safi = 129        -> {4, 16, 32, 12, 24, 48}
+    [] safi \in {133, 134}                  -> {0, 4, 16, 32}
+    [] OTHER                                 -> 0..255
+NextHopLenOk(r) ==
+  r.body.t = "update" =>
+    \A i \in 1..Len(r.body.inner) :
+       r.body.inner[i].k = "mp" => r.body.inner[i].nhl \in NhLens(r.body.inner[i].afi, r.body.inner[i].safi)
+
 WellFormedR(b, r, opts) ==
   /\ r.hdr.ok
   /\ r.hdr.len = Len(b)
   /\ r.body.ok
   /\ AttrFlagsConsistent(b, r)
   /\ PrefixBitsOk(b, r, opts)
+  /\ NextHopLenOk(r)
 
 WellFormed(b, opts) == WellFormedR(b, ReadMsg(b, opts), opts)
 
